@@ -1341,182 +1341,8 @@ pub fn run(ctx: &Ctx) -> ! {
     }
     let mut support = serde_json::Map::new();
 
-    // ---------------- unary: every (type, column) x layouts x options x limits
-    let types = all_types(thorough);
-    let mut jobs: Vec<TyJob> = vec![];
-    let mut total = 0u64;
-    for ty in &types {
-        let al = alphabet(ty);
-        let a = al.len();
-        let space = if thorough { ColSpace::new(a, &[(a, 4), (7, 5)]) } else { ColSpace::new(a, &[(a, 3), (6, 4)]) };
-        support.insert(ty.name(), json!({"make_comparator": true, "sort": can_sort(ty), "rank": can_rank(ty), "cmp_kernels": can_kernel(ty), "alphabet": a, "columns": space.describe()}));
-        jobs.push(TyJob { ty: ty.clone(), al, space: space.clone(), start: total });
-        total += space.count();
-    }
-    let n_layouts = UNARY_LAYOUTS.len() as u64;
-    st.merge(par_for(ctx, "unary", if wants("unary") { total } else { 0 }, 16, |idx, st| {
-        let (job, off) = locate(&jobs, idx);
-        let col = job.space.decode(off);
-        let vals = col_vals(&job.al, &col);
-        let ev = run_unary_case(&job.ty, &col, &UNARY_LAYOUTS, false, st, order_base + idx, false);
-        st.add("unary", ev, if nontrivial(&vals) { n_layouts * 4 } else { 0 });
-        if off == job.space.count() - 1 && (job.start == 0 || idx == total - 1) {
-            st.sample("unary", || json!({"type": job.ty.name(), "values": show_col(&vals), "layouts": UNARY_LAYOUTS.iter().map(|l| l.show()).collect::<Vec<_>>()}));
-        }
-    }));
-    order_base += total;
-    st.extra.insert("unary_columns".into(), json!(total));
-
-    // ---------------- pairs: two-array comparator and comparison kernels
-    // (value type, left encoding, right encoding) x all pairs of columns of length <= 3
-    struct PairJob {
-        lt: Ty,
-        rt: Ty,
-        space: ColSpace,
-        start: u64,
-    }
-    let mut pjobs: Vec<PairJob> = vec![];
-    let mut ptotal = 0u64;
-    let wide_leafs: Vec<String> = ["Boolean", "Int32", "Float32", "Utf8", "Utf8View", "FixedSizeBinary(3)", "Decimal128(10, -1)"].iter().map(|s| s.to_string()).collect();
-    for leaf in leaf_types(thorough) {
-        let wide = thorough || wide_leafs.contains(&leaf.name());
-        let fam = family(&leaf, wide);
-        let a = alphabet(&leaf).len();
-        for lt in &fam {
-            for rt in &fam {
-                let same = lt == rt;
-                // pair columns: (lcol, rcol) encoded as one column over the product alphabet is awkward;
-                // instead enumerate lcol and rcol independently from the same column space
-                let letters = if same && matches!(lt, Ty::Prim(_) | Ty::Bool | Ty::Bytes(_) | Ty::Fsb(_) | Ty::Null) { a.min(if thorough { 8 } else { 6 }) } else { a.min(4) };
-                let space = if thorough { ColSpace::new(a, &[(letters, 2), (letters.min(5), 3)]) } else { ColSpace::new(a, &[(letters, 2), (letters.min(4), 3)]) };
-                let c = space.count();
-                pjobs.push(PairJob { lt: lt.clone(), rt: rt.clone(), space, start: ptotal });
-                ptotal += c * c;
-            }
-        }
-    }
-    // nested / encoded types: two-array comparator only (the kernels must refuse nested types)
-    for ty in composite_types(thorough) {
-        let a = alphabet(&ty).len();
-        let space = ColSpace::new(a, &[(a.min(6), 2), (a.min(4), 3)]);
-        let c = space.count();
-        pjobs.push(PairJob { lt: ty.clone(), rt: ty.clone(), space, start: ptotal });
-        ptotal += c * c;
-    }
-    let pair_lays: &[(Lay, Lay)] = &PAIR_LAYOUTS;
-    st.merge(par_for(ctx, "pairs", if wants("pairs") { ptotal } else { 0 }, 64, |idx, st| {
-        let p = pjobs.partition_point(|j| j.start <= idx) - 1;
-        let job = &pjobs[p];
-        let off = idx - job.start;
-        let c = job.space.count();
-        let (lcol, rcol) = (job.space.decode(off / c), job.space.decode(off % c));
-        // kernels need equal lengths or a length-1 side; the comparator takes any pair
-        let ev = run_pair_case(&job.lt, &job.rt, &lcol, &rcol, pair_lays, st, order_base + idx, false);
-        st.add("pairs", ev, if lcol.len() + rcol.len() >= 2 { pair_lays.len() as u64 } else { 0 });
-        if off == c * c - 1 && (p == 0 || p == pjobs.len() - 1) {
-            st.sample("pairs", || json!({"ltype": job.lt.name(), "rtype": job.rt.name(), "lcol": lcol, "rcol": rcol}));
-        }
-    }));
-    order_base += ptotal;
-    st.extra.insert("pair_cases".into(), json!(ptotal));
-
-    // ---------------- tuples
     use arrow_schema::DataType::*;
-    let mut tuple_types: Vec<Vec<Ty>> = vec![
-        vec![p(Int32), by(Utf8)],
-        vec![by(Utf8View), p(Float64)],
-        vec![Ty::Bool, dict(Int8, by(Utf8))],
-        vec![list(LK::List, p(Int32)), p(Int8)],
-        vec![Ty::Struct(vec![p(Int32), by(Utf8)]), Ty::Bool],
-        vec![ree(Int16, p(Int32)), by(Binary)],
-        vec![p(Float32), p(Float32)],
-        vec![Ty::Fsb(3), p(Interval(arrow_schema::IntervalUnit::MonthDayNano))],
-        vec![Ty::Union(true, vec![(0, p(Int32)), (5, by(Utf8))]), p(Int32)],
-        vec![Ty::Map(Box::new(by(Utf8)), Box::new(p(Int32))), p(Decimal128(10, -1))],
-        vec![Ty::Null, p(Int32)],
-    ];
-    if thorough {
-        tuple_types.extend([
-            vec![p(Decimal256(40, 3)), by(LargeUtf8)],
-            vec![dict(UInt16, p(Int32)), dict(Int32, by(Utf8View))],
-            vec![list(LK::ListView, p(Int32)), fsl(2, p(Int32))],
-            vec![p(Float16), by(BinaryView)],
-            vec![ts(arrow_schema::TimeUnit::Second, None), p(Date32)],
-            vec![ree(Int32, by(Utf8)), ree(Int64, Ty::Bool)],
-        ]);
-    }
-    let mut triple_types: Vec<Vec<Ty>> = vec![vec![p(Int32), by(Utf8), Ty::Bool], vec![p(Float64), dict(Int8, by(Utf8)), list(LK::List, p(Int32))]];
-    if thorough {
-        triple_types.push(vec![by(Utf8View), p(UInt8), Ty::Struct(vec![p(Int32), by(Utf8)])]);
-        triple_types.push(vec![Ty::Bool, Ty::Bool, p(Int64)]);
-    }
-    struct TupJob {
-        tys: Vec<Ty>,
-        letters: Vec<usize>,
-        #[allow(dead_code)]
-        maxrows: usize,
-        start: u64,
-    }
-    let mut tjobs: Vec<TupJob> = vec![];
-    let mut ttotal = 0u64;
-    let rows_count = |letters: &[usize], maxrows: usize| -> u64 {
-        let per: u64 = letters.iter().map(|l| *l as u64).product();
-        (0..=maxrows).map(|n| per.pow(n as u32)).sum()
-    };
-    for tys in tuple_types.iter() {
-        let letters: Vec<usize> = tys.iter().map(|t| alphabet(t).len().min(4)).collect();
-        let maxrows = 3;
-        tjobs.push(TupJob { tys: tys.clone(), letters: letters.clone(), maxrows, start: ttotal });
-        ttotal += rows_count(&letters, maxrows);
-    }
-    for tys in triple_types.iter() {
-        let letters: Vec<usize> = tys.iter().map(|t| alphabet(t).len().min(3)).collect();
-        let maxrows = if thorough { 3 } else { 2 };
-        tjobs.push(TupJob { tys: tys.clone(), letters: letters.clone(), maxrows, start: ttotal });
-        ttotal += rows_count(&letters, maxrows);
-    }
-    // 4-row tuples over 2-letter alphabets (partial-sort / select_nth paths with ties)
-    for tys in tuple_types.iter().take(if thorough { tuple_types.len() } else { 3 }) {
-        let letters: Vec<usize> = tys.iter().map(|t| alphabet(t).len().min(2)).collect();
-        tjobs.push(TupJob { tys: tys.clone(), letters: letters.clone(), maxrows: 4, start: ttotal });
-        ttotal += rows_count(&letters, 4);
-    }
-    let tuple_lays = [COMPACT, Lay { garbage: true, alt: true, lead: 1, trail: 1 }];
-    st.merge(par_for(ctx, "tuples", if wants("tuples") { ttotal } else { 0 }, 8, |idx, st| {
-        let pi = tjobs.partition_point(|j| j.start <= idx) - 1;
-        let job = &tjobs[pi];
-        let mut off = idx - job.start;
-        let per: u64 = job.letters.iter().map(|l| *l as u64).product();
-        let mut nrows = 0;
-        loop {
-            let c = per.pow(nrows as u32);
-            if off < c {
-                break;
-            }
-            off -= c;
-            nrows += 1;
-        }
-        let mut rows: Vec<Vec<u8>> = vec![];
-        for _ in 0..nrows {
-            let mut r = off % per;
-            off /= per;
-            let mut row = vec![];
-            for l in &job.letters {
-                row.push((r % *l as u64) as u8);
-                r /= *l as u64;
-            }
-            rows.push(row);
-        }
-        let ev = run_tuple_case(&job.tys, &rows, &tuple_lays, &opt_product(job.tys.len()), st, order_base + idx, false);
-        let nt = rows.len() >= 2 && rows.iter().any(|r| r != &rows[0]);
-        st.add("tuples", ev, if nt { (tuple_lays.len() * opt_product(job.tys.len()).len()) as u64 } else { 0 });
-        if idx == ttotal - 1 {
-            st.sample("tuples", || json!({"types": job.tys.iter().map(|t| t.name()).collect::<Vec<_>>(), "rows": rows}));
-        }
-    }));
-    order_base += ttotal;
-    st.extra.insert("tuple_cases".into(), json!(ttotal));
-
+    // the cheap, structurally diverse families run first so that a time-budget cap cannot skip them
     // ---------------- long structured families
     let long_lens: Vec<usize> = if thorough {
         vec![7, 8, 9, 10, 11, 15, 16, 17, 19, 20, 21, 30, 31, 32, 33, 40, 63, 64, 65, 100, 127, 128, 129, 255, 256, 257, 511, 512, 513, 1023, 1024, 1025]
@@ -1675,8 +1501,184 @@ pub fn run(ctx: &Ctx) -> ! {
             st.sample("topk-long", || json!({"family": name, "rows": n, "encoding": enc, "limits": limits}));
         }
     }));
+    order_base += n_tl;
     st.extra.insert("topk_cases".into(), json!({"perm": ktotal, "heap_sizes": topk_ls, "long": n_tl, "long_lengths": topk_lens, "long_families": n_fams}));
     st.extra.insert("long_cases".into(), json!({"single": n_ls, "tuples": n_lt, "lengths": long_lens}));
+
+    // ---------------- unary: every (type, column) x layouts x options x limits
+    let types = all_types(thorough);
+    let mut jobs: Vec<TyJob> = vec![];
+    let mut total = 0u64;
+    for ty in &types {
+        let al = alphabet(ty);
+        let a = al.len();
+        let space = if thorough { ColSpace::new(a, &[(a, 4), (7, 5)]) } else { ColSpace::new(a, &[(a, 3), (6, 4)]) };
+        support.insert(ty.name(), json!({"make_comparator": true, "sort": can_sort(ty), "rank": can_rank(ty), "cmp_kernels": can_kernel(ty), "alphabet": a, "columns": space.describe()}));
+        jobs.push(TyJob { ty: ty.clone(), al, space: space.clone(), start: total });
+        total += space.count();
+    }
+    let n_layouts = UNARY_LAYOUTS.len() as u64;
+    st.merge(par_for(ctx, "unary", if wants("unary") { total } else { 0 }, 16, |idx, st| {
+        let (job, off) = locate(&jobs, idx);
+        let col = job.space.decode(off);
+        let vals = col_vals(&job.al, &col);
+        let ev = run_unary_case(&job.ty, &col, &UNARY_LAYOUTS, false, st, order_base + idx, false);
+        st.add("unary", ev, if nontrivial(&vals) { n_layouts * 4 } else { 0 });
+        if off == job.space.count() - 1 && (job.start == 0 || idx == total - 1) {
+            st.sample("unary", || json!({"type": job.ty.name(), "values": show_col(&vals), "layouts": UNARY_LAYOUTS.iter().map(|l| l.show()).collect::<Vec<_>>()}));
+        }
+    }));
+    order_base += total;
+    st.extra.insert("unary_columns".into(), json!(total));
+
+    // ---------------- pairs: two-array comparator and comparison kernels
+    // (value type, left encoding, right encoding) x all pairs of columns of length <= 3
+    struct PairJob {
+        lt: Ty,
+        rt: Ty,
+        space: ColSpace,
+        start: u64,
+    }
+    let mut pjobs: Vec<PairJob> = vec![];
+    let mut ptotal = 0u64;
+    let wide_leafs: Vec<String> = ["Boolean", "Int32", "Float32", "Utf8", "Utf8View", "FixedSizeBinary(3)", "Decimal128(10, -1)"].iter().map(|s| s.to_string()).collect();
+    for leaf in leaf_types(thorough) {
+        let wide = thorough || wide_leafs.contains(&leaf.name());
+        let fam = family(&leaf, wide);
+        let a = alphabet(&leaf).len();
+        for lt in &fam {
+            for rt in &fam {
+                let same = lt == rt;
+                // pair columns: (lcol, rcol) encoded as one column over the product alphabet is awkward;
+                // instead enumerate lcol and rcol independently from the same column space
+                let letters = if same && matches!(lt, Ty::Prim(_) | Ty::Bool | Ty::Bytes(_) | Ty::Fsb(_) | Ty::Null) { a.min(if thorough { 8 } else { 6 }) } else { a.min(4) };
+                let space = if thorough { ColSpace::new(a, &[(letters, 2), (letters.min(5), 3)]) } else { ColSpace::new(a, &[(letters, 2), (letters.min(4), 3)]) };
+                let c = space.count();
+                pjobs.push(PairJob { lt: lt.clone(), rt: rt.clone(), space, start: ptotal });
+                ptotal += c * c;
+            }
+        }
+    }
+    // nested / encoded types: two-array comparator only (the kernels must refuse nested types)
+    for ty in composite_types(thorough) {
+        let a = alphabet(&ty).len();
+        let space = ColSpace::new(a, &[(a.min(6), 2), (a.min(4), 3)]);
+        let c = space.count();
+        pjobs.push(PairJob { lt: ty.clone(), rt: ty.clone(), space, start: ptotal });
+        ptotal += c * c;
+    }
+    let pair_lays: &[(Lay, Lay)] = &PAIR_LAYOUTS;
+    st.merge(par_for(ctx, "pairs", if wants("pairs") { ptotal } else { 0 }, 64, |idx, st| {
+        let p = pjobs.partition_point(|j| j.start <= idx) - 1;
+        let job = &pjobs[p];
+        let off = idx - job.start;
+        let c = job.space.count();
+        let (lcol, rcol) = (job.space.decode(off / c), job.space.decode(off % c));
+        // kernels need equal lengths or a length-1 side; the comparator takes any pair
+        let ev = run_pair_case(&job.lt, &job.rt, &lcol, &rcol, pair_lays, st, order_base + idx, false);
+        st.add("pairs", ev, if lcol.len() + rcol.len() >= 2 { pair_lays.len() as u64 } else { 0 });
+        if off == c * c - 1 && (p == 0 || p == pjobs.len() - 1) {
+            st.sample("pairs", || json!({"ltype": job.lt.name(), "rtype": job.rt.name(), "lcol": lcol, "rcol": rcol}));
+        }
+    }));
+    order_base += ptotal;
+    st.extra.insert("pair_cases".into(), json!(ptotal));
+
+    // ---------------- tuples
+    let mut tuple_types: Vec<Vec<Ty>> = vec![
+        vec![p(Int32), by(Utf8)],
+        vec![by(Utf8View), p(Float64)],
+        vec![Ty::Bool, dict(Int8, by(Utf8))],
+        vec![list(LK::List, p(Int32)), p(Int8)],
+        vec![Ty::Struct(vec![p(Int32), by(Utf8)]), Ty::Bool],
+        vec![ree(Int16, p(Int32)), by(Binary)],
+        vec![p(Float32), p(Float32)],
+        vec![Ty::Fsb(3), p(Interval(arrow_schema::IntervalUnit::MonthDayNano))],
+        vec![Ty::Union(true, vec![(0, p(Int32)), (5, by(Utf8))]), p(Int32)],
+        vec![Ty::Map(Box::new(by(Utf8)), Box::new(p(Int32))), p(Decimal128(10, -1))],
+        vec![Ty::Null, p(Int32)],
+    ];
+    if thorough {
+        tuple_types.extend([
+            vec![p(Decimal256(40, 3)), by(LargeUtf8)],
+            vec![dict(UInt16, p(Int32)), dict(Int32, by(Utf8View))],
+            vec![list(LK::ListView, p(Int32)), fsl(2, p(Int32))],
+            vec![p(Float16), by(BinaryView)],
+            vec![ts(arrow_schema::TimeUnit::Second, None), p(Date32)],
+            vec![ree(Int32, by(Utf8)), ree(Int64, Ty::Bool)],
+        ]);
+    }
+    let mut triple_types: Vec<Vec<Ty>> = vec![vec![p(Int32), by(Utf8), Ty::Bool], vec![p(Float64), dict(Int8, by(Utf8)), list(LK::List, p(Int32))]];
+    if thorough {
+        triple_types.push(vec![by(Utf8View), p(UInt8), Ty::Struct(vec![p(Int32), by(Utf8)])]);
+        triple_types.push(vec![Ty::Bool, Ty::Bool, p(Int64)]);
+    }
+    struct TupJob {
+        tys: Vec<Ty>,
+        letters: Vec<usize>,
+        #[allow(dead_code)]
+        maxrows: usize,
+        start: u64,
+    }
+    let mut tjobs: Vec<TupJob> = vec![];
+    let mut ttotal = 0u64;
+    let rows_count = |letters: &[usize], maxrows: usize| -> u64 {
+        let per: u64 = letters.iter().map(|l| *l as u64).product();
+        (0..=maxrows).map(|n| per.pow(n as u32)).sum()
+    };
+    for tys in tuple_types.iter() {
+        let letters: Vec<usize> = tys.iter().map(|t| alphabet(t).len().min(4)).collect();
+        let maxrows = 3;
+        tjobs.push(TupJob { tys: tys.clone(), letters: letters.clone(), maxrows, start: ttotal });
+        ttotal += rows_count(&letters, maxrows);
+    }
+    for tys in triple_types.iter() {
+        let letters: Vec<usize> = tys.iter().map(|t| alphabet(t).len().min(3)).collect();
+        let maxrows = if thorough { 3 } else { 2 };
+        tjobs.push(TupJob { tys: tys.clone(), letters: letters.clone(), maxrows, start: ttotal });
+        ttotal += rows_count(&letters, maxrows);
+    }
+    // 4-row tuples over 2-letter alphabets (partial-sort / select_nth paths with ties)
+    for tys in tuple_types.iter().take(if thorough { tuple_types.len() } else { 3 }) {
+        let letters: Vec<usize> = tys.iter().map(|t| alphabet(t).len().min(2)).collect();
+        tjobs.push(TupJob { tys: tys.clone(), letters: letters.clone(), maxrows: 4, start: ttotal });
+        ttotal += rows_count(&letters, 4);
+    }
+    let tuple_lays = [COMPACT, Lay { garbage: true, alt: true, lead: 1, trail: 1 }];
+    st.merge(par_for(ctx, "tuples", if wants("tuples") { ttotal } else { 0 }, 8, |idx, st| {
+        let pi = tjobs.partition_point(|j| j.start <= idx) - 1;
+        let job = &tjobs[pi];
+        let mut off = idx - job.start;
+        let per: u64 = job.letters.iter().map(|l| *l as u64).product();
+        let mut nrows = 0;
+        loop {
+            let c = per.pow(nrows as u32);
+            if off < c {
+                break;
+            }
+            off -= c;
+            nrows += 1;
+        }
+        let mut rows: Vec<Vec<u8>> = vec![];
+        for _ in 0..nrows {
+            let mut r = off % per;
+            off /= per;
+            let mut row = vec![];
+            for l in &job.letters {
+                row.push((r % *l as u64) as u8);
+                r /= *l as u64;
+            }
+            rows.push(row);
+        }
+        let ev = run_tuple_case(&job.tys, &rows, &tuple_lays, &opt_product(job.tys.len()), st, order_base + idx, false);
+        let nt = rows.len() >= 2 && rows.iter().any(|r| r != &rows[0]);
+        st.add("tuples", ev, if nt { (tuple_lays.len() * opt_product(job.tys.len()).len()) as u64 } else { 0 });
+        if idx == ttotal - 1 {
+            st.sample("tuples", || json!({"types": job.tys.iter().map(|t| t.name()).collect::<Vec<_>>(), "rows": rows}));
+        }
+    }));
+    st.extra.insert("tuple_cases".into(), json!(ttotal));
+
     st.extra.insert("support_matrix".into(), Value::Object(support));
     st.extra.insert("types".into(), json!(types.len()));
 
